@@ -540,7 +540,7 @@ class Model:
             a = self.fold(mod, expr.left, env, cls)
             b = self.fold(mod, expr.comparators[0], env, cls)
             op = expr.ops[0]
-            table = {ast.Eq: a == b, ast.NotEq: a != b}
+            table = {ast.Eq: a == b, ast.NotEq: a != b, ast.Is: a is b, ast.IsNot: a is not b}
             if type(op) in table:
                 return table[type(op)]
         raise NotConst(ast.unparse(expr))
